@@ -1,6 +1,7 @@
 (* C19 -- theorems about the reference semantics of `jose fmt` (Cli/Fmt.v).
    All statements are for ALL programs / states; no bound except the 255-option premise
    where the 8-bit exit status is concerned. *)
+From Coq Require String Ascii.
 From JoseV Require Import Cli.Fmt.
 Local Open Scope N_scope.
 
@@ -210,6 +211,11 @@ Lemma upd_same {A} (l : list A) a x : (a < length l)%nat -> nth_error (upd l a x
 Proof.
   revert a. induction l as [|y l IH]; intros [|a] L; simpl in *; try lia; [reflexivity|]. apply IH. lia.
 Qed.
+
+Lemma store_update (l : heap) a x :
+  (forall b, a <> b -> nth_error (upd l a x) b = nth_error l b) /\
+  ((a < length l)%nat -> nth_error (upd l a x) a = Some x).
+Proof. split; [intros b; exact (upd_other l a x b)|exact (upd_same l a x)]. Qed.
 
 Lemma upd_length {A} (l : list A) a x : length (upd l a x) = length l.
 Proof. revert a. induction l as [|y l IH]; intros [|a]; simpl; try reflexivity. f_equal. apply IH. Qed.
@@ -687,7 +693,7 @@ Proof.
   - (* -U *) unfold top_addr in M. destruct (stk s); [|discriminate M]. destruct H as [H|[]]. subst. reflexivity.
   - (* -c *) crackf H; subst; try reflexivity; try assumption; cbn in M; discriminate.
   - (* -o *) crackf H; subst; try reflexivity; try assumption; cbn in M; discriminate.
-  - (* -f *) unfold foreach_lines in H. crackf H; subst; try reflexivity; try assumption; cbn in M; discriminate.
+  - (* -f *) unfold foreach_lines in H. destruct (top_node s) as [[v|l|m]|]; crackf H; subst; try reflexivity; try assumption; cbn in M; discriminate.
   - (* -u *) crackf H; subst; try reflexivity; try assumption; cbn in M; discriminate.
   - (* -t *) crackf H; subst; try reflexivity; try assumption; cbn in M; discriminate.
   - (* -i *) crackf H; subst; try reflexivity; try assumption; cbn in M; discriminate.
@@ -714,6 +720,308 @@ Proof.
   intros M IA. destruct (plain o) eqn:P.
   - apply step_fail_plain; [exact P|]. apply type_errors_plain; [exact P|exact M].
   - destruct o; try discriminate.
-    + intros r H. exact (assert_wrong a st (IA eq_refl) M r H).
-    + discriminate M.
+    intros r H. exact (assert_wrong a st (IA eq_refl) M r H).
 Qed.
+
+(* ================================================================== H. -X *)
+
+(* an assertion whose truth value is b: passes iff (pending -X) xor b; nothing else changes *)
+Theorem assertion_law a st nxt b :
+  holds a st = VHolds b ->
+  step st (OAssert a) nxt = if xorb (inv st) b then [Ok (set_inv false st)] else [Fail (files st)].
+Proof. unfold step, step_assert. intros ->. reflexivity. Qed.
+
+(* -X inverts exactly the next assertion: the assertion right after it is judged inverted and
+   consumes the flag, the one after that is judged plainly *)
+Theorem not_applies_once st a a' nxt b b' :
+  inv st = false -> holds a st = VHolds b -> holds a' st = VHolds b' ->
+  step st ONot (Some (OAssert a)) = [Ok (set_inv true st)] /\
+  step (set_inv true st) (OAssert a) (Some (OAssert a')) =
+    (if b then [Fail (files st)] else [Ok (set_inv false st)]) /\
+  step (set_inv false st) (OAssert a') nxt =
+    (if b' then [Ok (set_inv false st)] else [Fail (files st)]).
+Proof.
+  intros I Ha Ha'. repeat split.
+  - unfold step. rewrite I. reflexivity.
+  - rewrite (assertion_law a (set_inv true st) _ b Ha). destruct b; reflexivity.
+  - rewrite (assertion_law a' (set_inv false st) _ b' Ha'). destruct b'; reflexivity.
+Qed.
+
+(* ================================================================== I. indices *)
+
+(* "#" counts from the start, "-#" from the end, everything else is out of range *)
+Theorem conv_index_spec len z :
+  match conv_index len z with
+  | Some i => (i < len)%nat /\
+              (((0 <= z)%Z /\ Z.of_nat i = z) \/ ((z < 0)%Z /\ Z.of_nat i = (Z.of_nat len + z)%Z))
+  | None => (Z.of_nat len <= z)%Z \/ (z < - Z.of_nat len)%Z
+  end.
+Proof.
+  unfold conv_index. destruct (z <? 0)%Z eqn:N.
+  - apply Z.ltb_lt in N.
+    destruct ((0 <=? z + Z.of_nat len)%Z && (z + Z.of_nat len <? Z.of_nat len)%Z) eqn:R.
+    + apply andb_true_iff in R as [R1 R2]. apply Z.leb_le in R1. apply Z.ltb_lt in R2.
+      split; [lia|]. right. split; [exact N|]. rewrite Z2Nat.id by lia. lia.
+    + apply andb_false_iff in R as [R|R]; [apply Z.leb_gt in R|apply Z.ltb_ge in R]; lia.
+  - apply Z.ltb_ge in N.
+    destruct ((0 <=? z)%Z && (z <? Z.of_nat len)%Z) eqn:R.
+    + apply andb_true_iff in R as [R1 R2]. apply Z.ltb_lt in R2.
+      split; [lia|]. left. split; [exact N|]. rewrite Z2Nat.id by lia. reflexivity.
+    + apply andb_false_iff in R as [R|R]; [apply Z.leb_gt in R|apply Z.ltb_ge in R]; lia.
+Qed.
+
+Lemma conv_index_in_range len z :
+  (- Z.of_nat len <= z < Z.of_nat len)%Z ->
+  conv_index len z = Some (Z.to_nat (if (z <? 0)%Z then Z.of_nat len + z else z)%Z).
+Proof.
+  intro R. unfold conv_index. destruct (z <? 0)%Z eqn:N.
+  - apply Z.ltb_lt in N. rewrite (Z.add_comm z).
+    replace ((0 <=? Z.of_nat len + z)%Z && (Z.of_nat len + z <? Z.of_nat len)%Z) with true; [reflexivity|].
+    symmetry. apply andb_true_iff. split; [apply Z.leb_le|apply Z.ltb_lt]; lia.
+  - apply Z.ltb_ge in N.
+    replace ((0 <=? z)%Z && (z <? Z.of_nat len)%Z) with true; [reflexivity|].
+    symmetry. apply andb_true_iff. split; [apply Z.leb_le|apply Z.ltb_lt]; lia.
+Qed.
+
+Lemma conv_index_out_of_range len z :
+  (Z.of_nat len <= z)%Z \/ (z < - Z.of_nat len)%Z -> conv_index len z = None.
+Proof.
+  intro R. pose proof (conv_index_spec len z) as S. destruct (conv_index len z); [|reflexivity]. lia.
+Qed.
+
+(* -g on an array: inside the range the element (counted from the start or from the end) is
+   pushed -- its ADDRESS, the store is not touched; outside the range the option fails *)
+Theorem get_by_index st arg nxt l z :
+  inv st = false -> top_node st = Some (NArr l) -> parse_index arg = Some z ->
+  ((- Z.of_nat (length l) <= z < Z.of_nat (length l))%Z ->
+     exists a, nth_error l (Z.to_nat (if (z <? 0)%Z then Z.of_nat (length l) + z else z)%Z) = Some a /\
+               step st (OGet arg) nxt = [Ok (push_addr a st)]) /\
+  ((Z.of_nat (length l) <= z)%Z \/ (z < - Z.of_nat (length l))%Z ->
+     step st (OGet arg) nxt = [Fail (files st)]).
+Proof.
+  intros I T P. unfold step. rewrite I. cbn [step_plain]. rewrite T. unfold arg_index. rewrite P. split.
+  - intro R. rewrite (conv_index_in_range _ _ R).
+    set (i := Z.to_nat _). assert (L : (i < length l)%nat) by (subst i; destruct (z <? 0)%Z eqn:N; [apply Z.ltb_lt in N|apply Z.ltb_ge in N]; lia).
+    destruct (nth_error l i) as [a|] eqn:E; [exists a; split; reflexivity|].
+    apply nth_error_None in E. lia.
+  - intro R. rewrite (conv_index_out_of_range _ _ R). reflexivity.
+Qed.
+
+Theorem delete_by_index st arg nxt t l z :
+  inv st = false -> top_addr st = Some t -> top_node st = Some (NArr l) -> parse_index arg = Some z ->
+  ((- Z.of_nat (length l) <= z < Z.of_nat (length l))%Z ->
+     step st (ODelete arg) nxt =
+       [Ok (set_node t (NArr (remove_at (Z.to_nat (if (z <? 0)%Z then Z.of_nat (length l) + z else z)%Z) l)) st)]) /\
+  ((Z.of_nat (length l) <= z)%Z \/ (z < - Z.of_nat (length l))%Z ->
+     step st (ODelete arg) nxt = [Fail (files st)]).
+Proof.
+  intros I A T P. unfold step. rewrite I. cbn [step_plain]. rewrite A, T. unfold arg_index. rewrite P. split.
+  - intro R. rewrite (conv_index_in_range _ _ R). reflexivity.
+  - intro R. rewrite (conv_index_out_of_range _ _ R). reflexivity.
+Qed.
+
+(* ================================================================== J. -t *)
+
+(* -t #: shrink to length #;  -t -#: discard the last # items.  Only the node of TOP is replaced,
+   by a prefix of the old array of exactly the documented length. *)
+Theorem trunc_spec st z nxt t l :
+  inv st = false -> top_addr st = Some t -> top_node st = Some (NArr l) ->
+  ((0 <= z <= Z.of_nat (length l))%Z ->
+     step st (OTrunc z) nxt = [Ok (set_node t (NArr (firstn (Z.to_nat z) l)) st)] /\
+     length (firstn (Z.to_nat z) l) = Z.to_nat z) /\
+  ((- Z.of_nat (length l) <= z < 0)%Z ->
+     step st (OTrunc z) nxt = [Ok (set_node t (NArr (firstn (length l - Z.to_nat (- z)) l)) st)] /\
+     length (firstn (length l - Z.to_nat (- z)) l) = (length l - Z.to_nat (- z))%nat).
+Proof.
+  intros I A T. unfold step. rewrite I. cbn [step_plain]. rewrite A, T. split; intro R.
+  - replace (0 <=? z)%Z with true by (symmetry; apply Z.leb_le; lia).
+    replace (Z.to_nat z <=? length l)%nat with true by (symmetry; apply Nat.leb_le; lia).
+    split; [reflexivity|]. apply firstn_length_le. lia.
+  - replace (0 <=? z)%Z with false by (symmetry; apply Z.leb_gt; lia).
+    replace (Z.to_nat (- z) <=? length l)%nat with true by (symmetry; apply Nat.leb_le; lia).
+    split; [reflexivity|]. apply firstn_length_le. lia.
+Qed.
+
+(* -t on anything but an array fails *)
+Theorem trunc_non_array st z nxt :
+  (forall l, top_node st <> Some (NArr l)) -> forall r, In r (step st (OTrunc z) nxt) -> is_fail r = true.
+Proof.
+  intros N. apply step_fail_plain; [reflexivity|]. intros r H. cbn [step_plain] in H.
+  change (top_node (set_inv false st)) with (top_node st) in H.
+  crackf H; subst; try reflexivity; exfalso; eapply N; reflexivity.
+Qed.
+
+(* ================================================================== K. frames of the main option families *)
+
+Definition same_io (s s' : state) : Prop := out s' = out s /\ files s' = files s.
+
+(* a fresh cell holding v is pushed; nothing else changes *)
+Definition pushes_value (v : json) (st st' : state) : Prop :=
+  exists a e, stk st' = a :: stk st /\ hp st' = hp st ++ e /\ (length (hp st) <= a)%nat /\
+              value (hp st') a = Some v /\ same_io st st' /\ inv st' = false.
+
+Lemma push_val_pushes v st : pushes_value v st (push_val v (set_inv false st)).
+Proof.
+  destruct (push_val_spec v (set_inv false st)) as [a [e [S [H [F [V [O [Fi I]]]]]]]].
+  exists a, e. repeat split; assumption.
+Qed.
+
+Theorem frame_json st v nxt st' : In (Ok st') (step st (OJson v) nxt) -> pushes_value v st st'.
+Proof.
+  intro H. apply step_ok_plain in H; [|reflexivity]. cbn [step_plain] in H. crack H. apply push_val_pushes.
+Qed.
+
+Theorem frame_quote st s nxt st' : In (Ok st') (step st (OQuote s) nxt) -> pushes_value (JStr s) st st'.
+Proof.
+  intro H. apply step_ok_plain in H; [|reflexivity]. cbn [step_plain] in H. crack H. apply push_val_pushes.
+Qed.
+
+(* -c: the value of TOP is pushed as a FRESH tree (no sharing with the original) *)
+Theorem frame_copy st nxt st' :
+  In (Ok st') (step st OCopy nxt) ->
+  exists t v, top_addr st = Some t /\ value (hp st) t = Some v /\ pushes_value v st st'.
+Proof.
+  intro H. apply step_ok_plain in H; [|reflexivity]. cbn [step_plain] in H. crack H.
+  exists a, j. repeat split; try assumption. apply push_val_pushes.
+Qed.
+
+(* -l: the integer length of TOP (arr./str./obj.) is pushed *)
+Theorem frame_length st nxt st' :
+  In (Ok st') (step st OLength nxt) ->
+  exists n, pushes_value (JInt (Z.of_nat n)) st st' /\
+            ((exists l, top_node st = Some (NArr l) /\ n = length l) \/
+             (exists m, top_node st = Some (NObj m) /\ n = length m) \/
+             (exists s, top_node st = Some (NScal (JStr s)) /\ n = length s)).
+Proof.
+  intro H. apply step_ok_plain in H; [|reflexivity]. cbn [step_plain] in H.
+  change (top_node (set_inv false st)) with (top_node st) in H. crack H.
+  - eexists. split; [apply push_val_pushes|]. right. right. eexists. split; reflexivity.
+  - eexists. split; [apply push_val_pushes|]. left. eexists. split; reflexivity.
+  - eexists. split; [apply push_val_pushes|]. right. left. eexists. split; reflexivity.
+Qed.
+
+(* -g: the ADDRESS of the member is pushed: TOP's value is not altered, the store is untouched,
+   and the new TOP is shared with its parent *)
+Theorem frame_get st arg nxt st' :
+  In (Ok st') (step st (OGet arg) nxt) ->
+  hp st' = hp st /\ same_io st st' /\
+  exists a, stk st' = a :: stk st /\
+    ((exists m, top_node st = Some (NObj m) /\ alookup arg m = Some a) \/
+     (exists l i, top_node st = Some (NArr l) /\ arg_index (length l) arg = Some i /\ nth_error l i = Some a)).
+Proof.
+  intro H. apply step_ok_plain in H; [|reflexivity]. cbn [step_plain] in H.
+  change (top_node (set_inv false st)) with (top_node st) in H. crack H.
+  - repeat split. exists a. split; [reflexivity|]. right. exists l, n0. repeat split; assumption.
+  - repeat split. exists a. split; [reflexivity|]. left. exists m. split; [reflexivity|assumption].
+Qed.
+
+(* -U pops and does nothing else *)
+Theorem frame_unwind st nxt st' :
+  In (Ok st') (step st OUnwind nxt) -> exists t, stk st = t :: stk st' /\ hp st' = hp st /\ same_io st st'.
+Proof.
+  intro H. apply step_ok_plain in H; [|reflexivity]. cbn [step_plain] in H.
+  change (stk (set_inv false st)) with (stk st) in H. crack H. exists a. repeat split.
+Qed.
+
+(* -s: only the node of PREV is replaced; it now REFERS to TOP's cell (no copy) *)
+Theorem frame_set st arg nxt st' :
+  In (Ok st') (step st (OSet arg) nxt) ->
+  stk st' = stk st /\ same_io st st' /\
+  exists t p, top_addr st = Some t /\ prev_addr st = Some p /\
+    ((exists m, prev_node st = Some (NObj m) /\ hp st' = upd (hp st) p (NObj (aset arg t m))) \/
+     (exists l i, prev_node st = Some (NArr l) /\ arg_index (length l) arg = Some i /\
+                  hp st' = upd (hp st) p (NArr (upd l i t)))).
+Proof.
+  intro H. apply step_ok_plain in H; [|reflexivity]. cbn [step_plain] in H.
+  change (top_addr (set_inv false st)) with (top_addr st) in H.
+  change (prev_addr (set_inv false st)) with (prev_addr st) in H.
+  change (prev_node (set_inv false st)) with (prev_node st) in H.
+  change (top_node (set_inv false st)) with (top_node st) in H.
+  crack H; repeat split; exists a, a0; repeat split.
+  - right. exists l, n1. repeat split; assumption.
+  - left. exists m. split; reflexivity.
+Qed.
+
+(* -a: PREV (arr.) gets a reference to TOP's cell at its end; PREV (obj.) gets the members of
+   TOP (obj.) it does not have yet *)
+Theorem frame_append st nxt st' :
+  In (Ok st') (step st OAppend nxt) ->
+  stk st' = stk st /\ same_io st st' /\
+  exists t p, top_addr st = Some t /\ prev_addr st = Some p /\
+    ((exists l, prev_node st = Some (NArr l) /\ hp st' = upd (hp st) p (NArr (l ++ [t]))) \/
+     (exists m o o', prev_node st = Some (NObj m) /\ top_node st = Some (NObj o) /\
+                     (o' = o \/ o' = not_self p o) /\
+                     hp st' = upd (hp st) p (NObj (add_missing m o')))).
+Proof.
+  intro H. apply step_ok_plain in H; [|reflexivity]. cbn [step_plain] in H.
+  change (top_addr (set_inv false st)) with (top_addr st) in H.
+  change (prev_addr (set_inv false st)) with (prev_addr st) in H.
+  change (prev_node (set_inv false st)) with (prev_node st) in H.
+  change (top_node (set_inv false st)) with (top_node st) in H.
+  crack H; repeat split; exists a, a0; repeat split;
+    try (left; eexists; split; reflexivity);
+    try (right; eexists; eexists; eexists; split; [reflexivity|split; [reflexivity|split; [left; reflexivity|reflexivity]]]);
+    try (right; eexists; eexists; eexists; split; [reflexivity|split; [reflexivity|split; [right; reflexivity|reflexivity]]]).
+Qed.
+
+(* -o: the serialization of TOP's value goes to stdout / the file; nothing else changes *)
+Theorem frame_output st d nxt st' :
+  In (Ok st') (step st (OOutput d) nxt) ->
+  stk st' = stk st /\ hp st' = hp st /\
+  exists t v, top_addr st = Some t /\ value (hp st) t = Some v /\
+    match d with
+    | DStdout => out st' = out st ++ dump v /\ files st' = files st
+    | DFile p => out st' = out st /\ files st' = aset p (dump v) (files st)
+    end.
+Proof.
+  intro H. apply step_ok_plain in H; [|reflexivity]. cbn [step_plain] in H. crack H.
+  split; [destruct d; reflexivity|]. split; [destruct d; reflexivity|].
+  exists a, j. repeat split; try assumption. exact (write_io d (dump j) (set_inv false st)).
+Qed.
+
+(* assertions and -X touch nothing but the flag *)
+Theorem frame_assert st a nxt st' :
+  In (Ok st') (step st (OAssert a) nxt) -> st' = set_inv false st.
+Proof. apply step_assert_ok. Qed.
+
+Theorem frame_not st nxt st' : In (Ok st') (step st ONot nxt) -> st' = set_inv true st.
+Proof. apply step_not_ok. Qed.
+
+(* a failing option leaves stdout alone: the result of the run carries the stdout of the state
+   before it (see exit_index); a successful one only ever appends *)
+Theorem out_monotone st o nxt st' : In (Ok st') (step st o nxt) -> exists d, out st' = out st ++ d.
+Proof.
+  intro H. apply frame_io in H. unfold io_frame in H.
+  destruct o; try (exists []; rewrite app_nil_r; apply H);
+    destruct H as [data H]; destruct d; try (exists data; apply H); exists []; rewrite app_nil_r; apply H.
+Qed.
+
+Lemma runs_from_nonempty p : forall st i, runs_from st i p <> [].
+Proof.
+  induction p as [|o rest IH]; intros st i; simpl; [discriminate|].
+  assert (S : exists r l, step st o (hd_error rest) = r :: l).
+  { unfold step. destruct o; try (destruct (inv st); [eexists; eexists; reflexivity|]).
+    all: try (unfold step_assert; destruct (holds a st); try destruct (inv st); try destruct (xorb _ _); eexists; eexists; reflexivity).
+    all: try (destruct (next_is_assert (hd_error rest)); eexists; eexists; reflexivity).
+    all: cbn [step_plain]; unfold guard_cyc, fail_w;
+      repeat match goal with |- context [match ?x with _ => _ end] => destruct x end;
+      eexists; eexists; reflexivity. }
+  destruct S as [r [l E]]. rewrite E. simpl. destruct r.
+  - discriminate.
+  - specialize (IH st0 (S i)). destruct (runs_from st0 (S i) rest); [congruence|discriminate].
+Qed.
+
+(* the manual always allows at least one behaviour, and [run] is one of them *)
+Theorem run_in_runs p : In (run p) (runs p).
+Proof.
+  unfold run, runs. pose proof (runs_from_nonempty p init 0). destruct (runs_from init 0 p); [congruence|].
+  left. reflexivity.
+Qed.
+
+(* ASCII text as bytes, for examples *)
+Fixpoint s2b (s : String.string) : bytes :=
+  match s with
+  | String.EmptyString => []
+  | String.String c r => Ascii.N_of_ascii c :: s2b r
+  end.
+Arguments s2b _%string_scope.
